@@ -520,11 +520,14 @@ func runPeerset(k *kernel.K) {
 	e.verbose = os.Getenv("VERIF_MODE") == "replay" || os.Getenv("VERIF_C30_VERBOSE") == "1"
 	handlerMode := false
 	period := 2 * time.Second
+	// the real handler goroutine with its ticker and action channel: a third of the thorough runs, a fifth of the quick ones
 	if k.Tier == "thorough" {
 		handlerMode = k.Bool(1, 3, "handler-mode")
-		if handlerMode {
-			period = []time.Duration{2 * time.Second, time.Second, 7 * time.Second, time.Minute}[k.Choose(4, "period")]
-		}
+	} else {
+		handlerMode = k.Bool(1, 5, "handler-mode")
+	}
+	if handlerMode {
+		period = []time.Duration{2 * time.Second, time.Second, 7 * time.Second, time.Minute}[k.Choose(4, "period")]
 	}
 	cfg := gps.NewConfigSet(e.maxIn, e.maxOut, e.reservedOnly, period)
 	if handlerMode {
